@@ -9,8 +9,80 @@ fn unhex(s: &str) -> Vec<u8> {
     (0..s.len() / 2).map(|i| u8::from_str_radix(&s[2 * i..2 * i + 2], 16).unwrap()).collect()
 }
 
+/// `replay --random <count> <seed> <harness>...`: run harness bodies on random inputs (dev aid)
+fn random_mode(args: &[String]) {
+    let count: usize = args[2].parse().unwrap();
+    let mut state: u64 = args[3].parse::<u64>().unwrap() | 1;
+    let mut next = move || {
+        state ^= state << 13;
+        state ^= state >> 7;
+        state ^= state << 17;
+        state
+    };
+    panic::set_hook(Box::new(|_| {}));
+    let mut bad = 0;
+    for name in &args[4..] {
+        let f = match kreal::gen::dispatch(name) {
+            Some(f) => f,
+            None => {
+                println!("RANDOM {} UNKNOWN-HARNESS", name);
+                continue;
+            }
+        };
+        let (mut ok, mut rej, mut fail) = (0, 0, 0);
+        let mut first = String::new();
+        for _ in 0..count {
+            let mut vals = Vec::new();
+            for _ in 0..48 {
+                let mode = next() % 10;
+                let mut v = vec![0u8; 16];
+                match mode {
+                    0 | 1 => v.iter_mut().for_each(|b| *b = 0xff),
+                    2 => {}
+                    3 | 4 => v[0] = (next() % 4) as u8,
+                    5 => {
+                        v[0] = (next() % 200) as u8;
+                    }
+                    _ => v.iter_mut().for_each(|b| *b = next() as u8),
+                }
+                vals.push(v);
+            }
+            let hex: Vec<String> = vals.iter().map(|v| v.iter().map(|b| format!("{:02x}", b)).collect()).collect();
+            nd::queue::load(vals);
+            match panic::catch_unwind(f) {
+                Ok(()) => ok += 1,
+                Err(e) => {
+                    if nd::queue::rejected() || e.downcast_ref::<nd::Rejected>().is_some() {
+                        rej += 1
+                    } else {
+                        fail += 1;
+                        if first.is_empty() {
+                            let msg = if let Some(s) = e.downcast_ref::<&str>() {
+                                s.to_string()
+                            } else if let Some(s) = e.downcast_ref::<String>() {
+                                s.clone()
+                            } else {
+                                "?".into()
+                            };
+                            first = format!("{} :: {}", msg, hex[..12].join(","));
+                        }
+                    }
+                }
+            }
+        }
+        if fail > 0 {
+            bad += 1;
+        }
+        println!("RANDOM {} ok={} rejected={} panicked={} {}", name, ok, rej, fail, first);
+    }
+    std::process::exit(if bad > 0 { 1 } else { 0 });
+}
+
 fn main() {
     let args: Vec<String> = std::env::args().collect();
+    if args[1] == "--random" {
+        return random_mode(&args);
+    }
     let name = &args[1];
     let vals: Vec<Vec<u8>> = if args.len() > 2 && !args[2].is_empty() {
         args[2].split(',').map(unhex).collect()
